@@ -1,4 +1,4 @@
-import BornoModel.Lexer
+import BornoModel.Value
 /-! # C10 — numeric literals denote the correctly rounded value in either digit script -/
 namespace Borno.Props.C10
 open Borno Lexer
@@ -53,5 +53,74 @@ theorem script_swap_invariant (c : Char) (h : 0x30 ≤ c.toNat ∧ c.toNat ≤ 0
     rw [this]
     exact Char.ofNat_toNat c
   · exact translit_other c (by omega)
+
+/-! ## the literal token -/
+
+/-- the shape of a number lexeme: a digit run, then a point and a digit run only if a digit follows
+    the point — `1.` and `1.x` leave the point for the next token -/
+theorem fraction_needs_a_digit (r : List Char) :
+    numFrac ['.'] = ([], ['.']) ∧ numFrac [] = ([], []) ∧
+    (∀ x, isDigit x = false → numFrac ('.' :: x :: r) = ([], '.' :: x :: r)) ∧
+    (∀ d, isDigit d = true → numFrac ('.' :: d :: r) = ('.' :: d :: r.takeWhile isDigit, r.dropWhile isDigit)) := by
+  refine ⟨rfl, rfl, fun x hx => ?_, fun d hd => ?_⟩
+  · simp [numFrac, hx]
+  · simp [numFrac, hd]
+
+/-- the two outcomes of scanning a number -/
+theorem scanNumber_cases (c : Char) (r : List Char) (line : Nat) :
+    (∃ x, F64.parseFloat (translit (c :: r.takeWhile isDigit ++ (numFrac (r.dropWhile isDigit)).1)) = .ok x ∧
+      scanNumber c r line = ⟨some ⟨.NUMBER, c :: r.takeWhile isDigit ++ (numFrac (r.dropWhile isDigit)).1, .num x, line⟩, none,
+        c :: r.takeWhile isDigit ++ (numFrac (r.dropWhile isDigit)).1, (numFrac (r.dropWhile isDigit)).2, line⟩) ∨
+    ((∀ x, F64.parseFloat (translit (c :: r.takeWhile isDigit ++ (numFrac (r.dropWhile isDigit)).1)) ≠ .ok x) ∧
+      scanNumber c r line = ⟨none, some (.static line [] invalidNumber),
+        c :: r.takeWhile isDigit ++ (numFrac (r.dropWhile isDigit)).1, (numFrac (r.dropWhile isDigit)).2, line⟩) := by
+  unfold scanNumber
+  simp only
+  cases hp : F64.parseFloat (translit (c :: r.takeWhile isDigit ++ (numFrac (r.dropWhile isDigit)).1)) with
+  | ok x => exact Or.inl ⟨x, rfl, rfl⟩
+  | range => exact Or.inr ⟨fun x h => (by cases h), rfl⟩
+  | «syntax» => exact Or.inr ⟨fun x h => (by cases h), rfl⟩
+
+theorem number_lexeme_shape (c : Char) (r : List Char) (line : Nat) :
+    (scanNumber c r line).used = c :: r.takeWhile isDigit ++ (numFrac (r.dropWhile isDigit)).1 ∧
+    (scanNumber c r line).rest = (numFrac (r.dropWhile isDigit)).2 := by
+  rcases scanNumber_cases c r line with ⟨x, _, h⟩ | ⟨_, h⟩ <;> rw [h] <;> exact ⟨rfl, rfl⟩
+
+/-- the value of a NUMBER token is `strconv.ParseFloat` of its transliterated lexeme; the lexeme is
+    the text consumed -/
+theorem literal_value (c : Char) (r : List Char) (line : Nat) (t : Token) (h : (scanNumber c r line).tok = some t) :
+    t.tt = .NUMBER ∧ t.lexeme = (scanNumber c r line).used ∧ t.line = line ∧
+    ∃ x, t.lit = .num x ∧ F64.parseFloat (translit t.lexeme) = .ok x ∧ (scanNumber c r line).diag = none := by
+  rcases scanNumber_cases c r line with ⟨x, hx, hs⟩ | ⟨_, hs⟩
+  · rw [hs] at h ⊢
+    simp only [Option.some.injEq] at h
+    subst h
+    exact ⟨rfl, rfl, rfl, x, rfl, hx, rfl⟩
+  · rw [hs] at h; cases h
+
+/-- a literal whose transliterated text `ParseFloat` rejects (a value beyond the largest double
+    included: Go reports a range error for it) yields no token and is diagnosed on its line -/
+theorem overflow_is_diagnosed (c : Char) (r : List Char) (line : Nat)
+    (h : ∀ x, F64.parseFloat (translit (scanNumber c r line).used) ≠ .ok x) :
+    (scanNumber c r line).tok = none ∧ (scanNumber c r line).diag = some (.static line [] invalidNumber) := by
+  rcases scanNumber_cases c r line with ⟨x, hx, hs⟩ | ⟨_, hs⟩
+  · rw [hs] at h; exact absurd hx (h x)
+  · rw [hs]; exact ⟨rfl, rfl⟩
+
+/-- the value depends on the lexeme only through its transliteration: writing any of its digits in
+    the other script gives the same double, bit for bit -/
+theorem literal_depends_on_translit (c c' : Char) (r r' : List Char) (line line' : Nat) (t t' : Token)
+    (h : (scanNumber c r line).tok = some t) (h' : (scanNumber c' r' line').tok = some t')
+    (heq : translit t.lexeme = translit t'.lexeme) : t.lit = t'.lit := by
+  obtain ⟨_, _, _, x, hx, hp, _⟩ := literal_value c r line t h
+  obtain ⟨_, _, _, x', hx', hp', _⟩ := literal_value c' r' line' t' h'
+  rw [heq, hp'] at hp
+  cases hp
+  rw [hx, hx']
+
+/-- run-time coercion of a string reads a number exactly as the lexer reads a literal:
+    the same transliteration, then the same `ParseFloat` -/
+theorem runtime_coercion_same_translit (s : List Char) :
+    toNumber (.str s) = (match F64.parseFloat (translit s) with | .ok x => some x | _ => none) := rfl
 
 end Borno.Props.C10
